@@ -22,18 +22,47 @@ Section HK.
 
   Definition okm_stream (prk info : bytes) : bytes := expand_blocks 255 prk info [] 1.
 
-  (* HKDF-Expand(PRK, info, L): L <= 255 * HashLen *)
+  (* HKDF-Expand(PRK, info, L): L <= 255 * HashLen. Executable form: only the blocks that are needed *)
+  Definition nblocks (L : nat) : nat := if hlen =? 0 then 0 else Nat.min 255 ((L + hlen - 1) / hlen).
   Definition expand (prk info : bytes) (L : nat) : option bytes :=
-    if 255 * hlen <? L then None else Some (firstn L (okm_stream prk info)).
+    if 255 * hlen <? L then None else Some (firstn L (expand_blocks (nblocks L) prk info [] 1)).
 
   Definition hkdf (ikm salt info : bytes) (L : nat) : option bytes := expand (extract salt ikm) info L.
 
   Lemma expand_blocks_length n : forall prk info prev i, length (expand_blocks n prk info prev i) = n * hlen.
   Proof. induction n; intros; cbn [expand_blocks]; [reflexivity|]. rewrite app_length, prf_len, IHn. lia. Qed.
 
+  (* fewer blocks give a prefix of more blocks *)
+  Lemma expand_blocks_prefix n : forall m prk info prev i, n <= m ->
+    expand_blocks n prk info prev i = firstn (n * hlen) (expand_blocks m prk info prev i).
+  Proof.
+    induction n as [|n IH]; intros m prk info prev i H; [reflexivity|].
+    destruct m as [|m]; [lia|]. cbn [expand_blocks].
+    rewrite firstn_app, prf_len. replace (S n * hlen - hlen) with (n * hlen) by lia.
+    rewrite firstn_all2 by (rewrite prf_len; lia). f_equal. apply IH. lia.
+  Qed.
+
+  (* the specification form: the first L bytes of T(1) | ... | T(255) *)
+  Theorem expand_spec prk info L :
+    expand prk info L = if 255 * hlen <? L then None else Some (firstn L (okm_stream prk info)).
+  Proof.
+    unfold expand, okm_stream. destruct (255 * hlen <? L) eqn:E; [reflexivity|]. apply Nat.ltb_ge in E. f_equal.
+    assert (Hn : nblocks L <= 255) by (unfold nblocks; destruct (hlen =? 0); lia).
+    rewrite (expand_blocks_prefix (nblocks L) 255 prk info [] 1 Hn).
+    rewrite firstn_firstn. f_equal.
+    unfold nblocks. destruct (hlen =? 0) eqn:H0.
+    - apply Nat.eqb_eq in H0. rewrite H0 in *. lia.
+    - apply Nat.eqb_neq in H0. apply Nat.min_l.
+      destruct (Nat.le_gt_cases 255 ((L + hlen - 1) / hlen)) as [G|G].
+      + rewrite Nat.min_l by exact G. lia.
+      + rewrite Nat.min_r by lia.
+        pose proof (Nat.div_mod (L + hlen - 1) hlen H0) as D.
+        pose proof (Nat.mod_upper_bound (L + hlen - 1) hlen H0) as U. nia.
+  Qed.
+
   Lemma expand_length prk info L o : expand prk info L = Some o -> length o = L.
   Proof.
-    unfold expand. destruct (255 * hlen <? L) eqn:E; [discriminate|]. apply Nat.ltb_ge in E.
+    rewrite expand_spec. destruct (255 * hlen <? L) eqn:E; [discriminate|]. apply Nat.ltb_ge in E.
     intro H. inversion H. rewrite firstn_length. unfold okm_stream. rewrite expand_blocks_length. lia.
   Qed.
 
@@ -41,7 +70,7 @@ Section HK.
   Lemma expand_prefix prk info L1 L2 o1 o2 : L1 <= L2 ->
     expand prk info L1 = Some o1 -> expand prk info L2 = Some o2 -> o1 = firstn L1 o2.
   Proof.
-    unfold expand. intros H. destruct (255 * hlen <? L1); [discriminate|]. destruct (255 * hlen <? L2); [discriminate|].
+    rewrite !expand_spec. intros H. destruct (255 * hlen <? L1); [discriminate|]. destruct (255 * hlen <? L2); [discriminate|].
     intros H1 H2. inversion H1. inversion H2. rewrite firstn_firstn. now rewrite Nat.min_l by lia.
   Qed.
 
